@@ -151,7 +151,7 @@ def order(
                 all_tasks = False
                 # Put non-tasks at the very end since they are merely aliases
                 # and have no impact on performance at all
-                prio = len(dsk) - 1 - n_removed_leaves
+                prio = expected_len - 1 - n_removed_leaves
                 if return_stats:
                     result[leaf] = Order(prio, -1)
                 else:
